@@ -506,8 +506,10 @@ func init() {
 					return e
 				}
 			}
+			truncated := false
 			for i := range tags {
 				noteTruncated(rep, "C20", all[i]...)
+				truncated = truncated || anyTruncated(all[i]...)
 			}
 			for i, tg := range tags {
 				// merge shards: digests are "k:hash" for subtree k
@@ -559,6 +561,7 @@ func init() {
 					}
 					rep.Histories += int64(ares[i].Cases)
 					rep.Transitions += int64(ares[i].Steps)
+					noteTruncated(rep, "C20 arity sweep", ares[i])
 					rep.PerConfig = append(rep.PerConfig, fmt.Sprintf("C20 arity sweep in build tags=%q: histories=%d violations=%d", tg, ares[i].Cases, len(ares[i].Violations)))
 					if i > 0 {
 						for k := range ares[0].Digests {
@@ -576,9 +579,12 @@ func init() {
 				}
 			}
 			rep.Samples = append(rep.Samples, "history: [New{P} ; Open(q0=f0) ; misuse:Get-before-Next(q0) ; Next(q0) ; Close(q0) ; misuse:Next-after-Close(q0)] traced in 4 builds")
-			// compare
+			// compare (digests of processes that were stopped by the deadline cover only a prefix: not comparable)
 			seen := map[string]bool{}
-			for i := 1; i < len(tags); i++ {
+			if truncated {
+				rep.PerConfig = append(rep.PerConfig, "C20: the wall-clock deadline stopped at least one build's enumeration; digest streams are not compared")
+			}
+			for i := 1; i < len(tags) && !truncated; i++ {
 				if len(res[i].Digests) != len(res[0].Digests) {
 					rep.Found = append(rep.Found, engine.Found{Scenario: "C20-builds", OpKind: "tasks",
 						V: drv.Violation{Kind: "build-diff", Msg: fmt.Sprintf("build %q enumerates %d subtrees, default build %d", tags[i], len(res[i].Digests), len(res[0].Digests))}})
